@@ -70,6 +70,12 @@ class _FragGen:
     def cond(self, d):
         r = self.r
         x = r.random()
+        if d < self.max_depth and r.random() < 0.12:
+            # any value can stand where a condition is expected: a ternary, an arithmetic
+            # expression (C and the evaluator agree on truthiness)
+            if r.random() < 0.6:
+                return ["n", "If", [self.cond(d + 1), self.expr(d + 1), self.expr(d + 1)]]
+            return self.expr(d + 1)
         if d >= self.max_depth or x < 0.6:
             return ["n", "Comparison", [self.expr(d + 1), ["s", r.choice(spec.OPS)],
                                         self.expr(d + 1)]]
